@@ -673,6 +673,18 @@ def c09(v):
             trig = True
         viols += check_abort(v, s, f[SEQ], f[T], 'c09',
                              "the last non-forever job %s finishes" % f[NAME])
+        x = v.exit(s)
+        if x is not None:
+            for k in fk:
+                for d in [k] + v.descendants(k):
+                    late = [b for b in v.all(mc.BEGIN, d) if b[SEQ] > x[SEQ]]
+                    if v.inside(d, x[SEQ]) or late:
+                        viols.append((
+                            'c09:outlives',
+                            "%s%s is still executing (or starts) after the run"
+                            " of %s ended at #%d t=%s"
+                            % (d, '' if d == k else ' (inside forever %s)' % k,
+                               s, x[SEQ], x[T])))
         if v.exit(s) is None and v.ex.outcome[0] in ('deadlock', 'horizon'):
             viols.append(('c09:waits-forever',
                           "all non-forever jobs of %s are finished at t=%s but "
